@@ -122,7 +122,8 @@ def run(ctx):
         "API-server semantics of the pod informer's field selector status.phase!=Failed are emulated by a list reactor of the fake clientset (the client-go fake ignores field selectors)",
         "errors_not_crashes holds under 'no authenticator that is reached panics'; proved for the four real authenticators except XFCC with a peer address whose host is not an IP literal (not a TCP peer)",
     ]
-    ctx.trusted.append("security/pkg/server/ca/zz_verif_c09.go (verif-tagged accessors: node-authorizer configured / synced); all other entry points are public API")
+    ctx.trusted.append("security/pkg/server/ca/zz_verif_c09.go (verif-tagged accessors: node-authorizer configured / synced / pod view) and "
+                       "pkg/kube/multicluster/zz_verif_c09.go (cluster update on the fake controller); all other entry points are public API")
     ctx.trusted.append("the harness' raw ASN.1 reader of the leaf certificate (cross-checked against crypto/x509 whenever x509 accepts the certificate)")
     proved = ctx.lean_prove([m for m in THEOREMS if os.path.exists(os.path.join(ROOT, "lean", m.replace(".", "/") + ".lean"))])
     if not ctx.build_drv():
@@ -177,14 +178,19 @@ MANIFEST = {
                    "for all identity strings), csr_cannot_inject and metadata_cannot_inject (non-interference; subject = CN-only|empty), impersonation_gate "
                    "(conditions exactly as coded, on the informer's non-Failed pods), never_ca, binds_csr_key, ttl_bounds (NotAfter-now <= max, "
                    "NotAfter-NotBefore <= max+120 s, <= signer expiry), crash_iff / errors_not_crashes_real (CreateCertificate panics exactly when a reached "
-                   "authenticator panics; none of the real ones does for TCP peers), kube_review_binds_token_and_audience, oidc_sub_total. Tied to /repo on "
+                   "authenticator panics; none of the real ones does for TCP peers), kube_review_binds_token_and_audience / kube_depends_only_on_submitted_review "
+                   "(the API server as a function of the submitted review), impersonation_through_kube (ambient flow end to end), tls_cert_root_scoped "
+                   "(client certificates validated against the roots of their own trust domain: crypto/tls + spiffe.PeerCertVerifier), the multicluster "
+                   "Component slot machine (pending swap), oidc_sub_total. Tied to /repo on "
                    "every run by a differential over the real CA, server and authenticators on parsed leaf certificates. One recorded unrepaired finding: "
                    "the gate does not constrain the trust domain of an impersonated identity (KNOWN-FINDING issue:impersonation-foreign-trust-domain)."),
     "level_note": ("Trusted: Lean kernel + {propext, Classical.choice, Quot.sound}; the hand-written model (tied by differential testing: 1500 cases / "
-                   "~4300 real CreateCertificate calls of which ~900 with a real authenticator inside the server + 3000 authenticator cases quick; 30000 + 60000 "
+                   "~4700 real CreateCertificate calls of which ~900 with a real authenticator inside the server, ~125 dynamic pod/cluster worlds + 3000 authenticator "
+                   "cases incl. real TLS handshakes quick; 30000 + 60000 "
                    "thorough); crypto/x509 + ASN.1 as an opaque encoding with decode(encode d)=d (the leaf's signature under the CA's signing certificate is "
-                   "checked by the harness, not proved); a nominal clock; the verif-tagged accessor file security/pkg/server/ca/zz_verif_c09.go; the fake "
-                   "API server's emulation of the status.phase field selector. Not modelled: serial numbers, token cryptography / TokenReview / JWKS (inputs), "
+                   "checked by the harness, not proved); a nominal clock; the verif-tagged accessor files security/pkg/server/ca/zz_verif_c09.go and "
+                   "pkg/kube/multicluster/zz_verif_c09.go; the fake API server's emulation of the status.phase field selector; X.509 path building modelled on "
+                   "issuer names. Not modelled: serial numbers, token cryptography / TokenReview / JWKS (inputs), "
                    "the third-party XFCC grammar (its parse is an input), OIDC discovery (only jwks_uri), non-UTF-8 identities in CreateCertificate, gRPC "
                    "transport, root-cert rotation, the RA path. errors_not_crashes assumes no reached authenticator panics; XFCC panics for a peer address "
                    "whose host is not an IP literal (not a TCP peer)."),
